@@ -209,6 +209,7 @@ func (w *Worker) runPath(prefix []Decision) {
 	r.raceSeen = map[string]bool{}
 	r.backings = map[*Value]*Backing{}
 	r.bufBacking = map[*Value]*Backing{}
+	r.pools = map[*Value]*PoolObj{}
 	w.solver.Push()
 	r.execute(ex.Entry)
 	if r.outcome == OutOK && ex.WitnessEvery > 0 && ex.wantWitness() {
